@@ -505,6 +505,35 @@ Proof.
   rewrite (fnonfinite_not_isfinite _ Hx), (fnonfinite_not_isfinite _ Hy). reflexivity.
 Qed.
 
+(* ---- empty polygons (C17): no finite coordinate in the polygon's buffer ----
+   the wrappers Point._intersects_polygon / PointArray._intersects_polygon answer False for
+   EVERY point (finite or not), whatever the offsets; the kernel alone does not (see the
+   Example in Properties/C17.v: the ray test against infinite vertices) *)
+Lemma existsb_isfinite_nonfinite : forall values,
+  Forall fnonfinite values -> existsb fisfinite values = false.
+Proof.
+  intros values H. induction H as [|v vs Hv H IH]; [reflexivity|].
+  simpl. rewrite (fnonfinite_not_isfinite _ Hv). exact IH.
+Qed.
+
+Theorem inf_polygon_contains_no_point : forall x y values offs,
+  Forall fnonfinite values -> fpolygon_intersects x y values offs = false.
+Proof.
+  intros x y values offs H. unfold fpolygon_intersects.
+  rewrite (existsb_isfinite_nonfinite _ H). reflexivity.
+Qed.
+
+(* part (b): a polygon with at least one finite coordinate goes to the kernel unchanged *)
+Theorem finite_polygon_kernel : forall x y values offs,
+  Exists (fun v => fisfinite v = true) values ->
+  fpolygon_intersects x y values offs = fpoint_intersects_polygon x y values offs.
+Proof.
+  intros x y values offs H. unfold fpolygon_intersects.
+  assert (E : existsb fisfinite values = true).
+  { apply existsb_exists. apply Exists_exists in H. exact H. }
+  rewrite E. reflexivity.
+Qed.
+
 (* part (b): a point with at least one finite coordinate is answered by its winding number *)
 Theorem nonempty_point_winding : forall x y values offs,
   fisfinite x = true \/ fisfinite y = true ->
